@@ -19,6 +19,7 @@ DESCRIPTIONS_PLAIN = ["A plain description.", "two words", "Sentence one. Senten
 DESCRIPTIONS_HOSTILE = [
     'say "hi"', "it's", 'ends with quote"', 'triple """ inside', "back\\slash", "ends with backslash\\",
     "new\nline", "tab\there", "ünï cödé 日本", "", " leading space", "trailing space ", "\\n literal",
+    "  indented first line\n  second line", "ends with newline\n", "\n\nblank lines around\n\n", "tab\tinside and    spaces",
     "percent %s {brace}", "'''", "\"", "\\", "a\\\"b", "carriage\rreturn", "\x0bvertical", "nul\x00byte",
 ]
 
